@@ -18,6 +18,8 @@
 #include <string>
 using namespace opensmt;
 
+template<class V> constexpr bool has_open_scope_v = requires(V const & v) { v.hasOpenScope(); };
+
 struct TN : public TermNames {
     using TermNames::TermNames;
     void doPush() { pushScope(); }
@@ -83,7 +85,12 @@ static void caseT(std::istringstream & is) {
             os << "-";
         } else if (c == 'o') {
             if (tn.isGlobal()) { tn.doPop(); os << "-"; }
-            else if (depth == 0) os << "UB";
+            else if (depth == 0) {
+                // no open scope: undefined in the code as it is (limits.back() of an empty vector).  If the
+                // class has been given the guard of proposed_fixes/C21_global_toggle.diff the call is safe.
+                if constexpr (has_open_scope_v<ScopedVector<int>>) { tn.doPop(); os << "-"; }
+                else os << "UB";
+            }
             else { --depth; tn.doPop(); os << "-"; }
         } else if (c == 'e') {
             unsigned n = std::stoul(op.substr(1));
